@@ -38,7 +38,8 @@ type Config struct {
 	Replay   string // path of a replay file, "" when exploring
 	Start    time.Time
 	Deadline time.Time // internal deadline; hitting it means exhaustive=false, never a failure
-	Dir      string    // /verif
+	Dir      string    // /verif (known_findings.txt lives here)
+	Out      string    // where evidence/ and replays/ are written (VERIF_OUT, default Dir)
 	Extra    map[string]string
 }
 
@@ -198,7 +199,7 @@ func Main(property string, worker pool.Handler, master func(cfg *Config, rep *Re
 	if dir == "" {
 		dir, _ = os.Getwd()
 	}
-	cfg := &Config{Property: property, Tier: *tier, Seed: seed, Replay: *replay, Start: time.Now(), Dir: dir, Extra: map[string]string{}}
+	cfg := &Config{Property: property, Tier: *tier, Seed: seed, Replay: *replay, Start: time.Now(), Dir: dir, Out: envOr("VERIF_OUT", dir), Extra: map[string]string{}}
 	for _, e := range extras {
 		if k, v, ok := strings.Cut(e, "="); ok {
 			cfg.Extra[k] = v
@@ -256,7 +257,7 @@ func finish(cfg *Config, rep *Report) int {
 	}
 	knownAgg := map[string]*knownHit{}
 	var knownOrder []string
-	os.MkdirAll(filepath.Join(cfg.Dir, "replays"), 0o755)
+	os.MkdirAll(filepath.Join(cfg.Out, "replays"), 0o755)
 	for _, sig := range order {
 		vs := bySig[sig]
 		var hit *finding
@@ -281,7 +282,7 @@ func finish(cfg *Config, rep *Report) int {
 		exit = 1
 		h := sha256.Sum256([]byte(sig))
 		name := fmt.Sprintf("%s-%s.json", cfg.Property, hex.EncodeToString(h[:5]))
-		path := filepath.Join(cfg.Dir, "replays", name)
+		path := filepath.Join(cfg.Out, "replays", name)
 		b, _ := json.MarshalIndent(map[string]any{"property": cfg.Property, "sig": sig, "detail": vs[0].Detail, "cases": len(vs), "replay": vs[0].Replay}, "", " ")
 		os.WriteFile(path, b, 0o644)
 		fmt.Printf("VIOLATION property=%s replay=%s\n", cfg.Property, path)
@@ -341,9 +342,9 @@ func finish(cfg *Config, rep *Report) int {
 	if rep.Assumptions == nil {
 		ev["assumptions"] = []string{}
 	}
-	os.MkdirAll(filepath.Join(cfg.Dir, "evidence"), 0o755)
+	os.MkdirAll(filepath.Join(cfg.Out, "evidence"), 0o755)
 	b, _ := json.MarshalIndent(ev, "", " ")
-	if err := os.WriteFile(filepath.Join(cfg.Dir, "evidence", cfg.Property+".json"), append(b, '\n'), 0o644); err != nil {
+	if err := os.WriteFile(filepath.Join(cfg.Out, "evidence", cfg.Property+".json"), append(b, '\n'), 0o644); err != nil {
 		fmt.Fprintln(os.Stderr, "cannot write evidence:", err)
 		return 2
 	}
